@@ -122,6 +122,7 @@ var proofVariants = []string{"", "", "", "split", "split", "mixview", "outsider"
 
 // craftFor builds one Byzantine message aimed at node n in its current state.
 func (a *adversary) craftFor(r *run, n *cnode) (*interfaces.ConsensusRawMessage, string) {
+	a.target = n.id
 	h := uint64(n.st.Height())
 	view := uint64(n.st.View())
 	if h == 0 {
@@ -383,6 +384,12 @@ func (a *adversary) craftNV(r *run, h, tv uint64) (*interfaces.ConsensusRawMessa
 		if len(votes) > 1 {
 			votes = votes[:len(votes)-1]
 			name += "_dropped_vote"
+		}
+	case 5: // a vote in the name of the node the message is made for (its signature cannot be produced: forged)
+		if a.target != nil && !used[string(a.target)] {
+			votes = append(votes, a.voteBuilder(voteD{ht: protocol.LEAN_HELIX_VIEW_CHANGE, inst: clusterInstance, h: h, v: tv, sender: a.target}))
+			used[string(a.target)] = true
+			name += "_forged_vote_of_the_receiver"
 		}
 	}
 	// the proposal
